@@ -18,7 +18,7 @@ from ..engine.nandomain import F, NanInterp, nan
 from ..engine.report import AnalysisError, Run
 from ..engine.resolver import ClassInfo, FuncInfo, Program, body_walk
 from ..engine.util import canon, method_call, nodes_with_call, u
-from ._c06_util import Flow, HelperCalls, Site, first_run_sync_name, validity_name, lifted, names_eq, pruned, result_sites, seg, select_ifexp, src_patch, stmt_patch, unawait
+from ._c06_util import Flow, HelperCalls, Site, first_run_sync_name, rereport, validity_name, lifted, names_eq, pruned, result_sites, seg, select_ifexp, src_patch, stmt_patch, unawait
 
 STEPS = "timeseries.formula_engine._formula_steps"
 EVAL = "timeseries.formula_engine._formula_evaluator"
@@ -652,8 +652,12 @@ def build_controls(prog: Program) -> list[tuple[str, str, str, str, str]]:
             add("zeros by default", ENGINE, src_patch(b.module, d_.lineno, d_.end_lineno or d_.lineno,
                                                       lambda t: t.replace("nones_are_zeros: bool = False", "nones_are_zeros: bool = True", 1)
                                                       if "nones_are_zeros: bool = False" in t else t.replace("= False", "= True", 1)), "C13.OUT")
+    from . import c06 as _c06
+    for nm, md, o_, n_, _r in _c06.build_controls(prog):
+        if nm in ("drain loops interchanged", "steps before synchronisation"):
+            out.append((nm, md, o_, n_, "C13.SYNC"))
     if len(out) < 6:
-        raise AnalysisError(f"C13: only {len(out)} of 10 seeded controls could be derived from the source ({[o[0] for o in out]})")
+        raise AnalysisError(f"C13: only {len(out)} of 12 seeded controls could be derived from the source ({[o[0] for o in out]})")
     return out
 
 
@@ -672,7 +676,25 @@ def check_emit(run: Run, prog: Program) -> None:
     c06.check_emit(run, prog, rnd, rule="C13.EMIT")
 
 
+def check_aligned(run: Run, prog: Program) -> None:
+    """C13.SYNC: "None exactly when an input *for that timestamp* is missing" presupposes that the values combined
+    belong to one timestamp and that a failed first alignment is retried -- the first-run synchronisation and
+    timestamp rules of C06 (every lagging stream advanced, flag cleared only by a completed synchronisation,
+    nothing fetched after evaluation began), run there and reported here."""
+    from . import c06
+
+    s06 = Run("C06", "quick", 0)
+    c06.bind_sync(prog)
+    c06.check_sync(s06, prog)
+    try:
+        c06.check_ts(s06, prog, c06.Round(prog))
+    except c06.RoundBroken:
+        pass  # reported by C13.EMIT
+    rereport(run, s06, ("C06.SYNC", "C06.TS"), "C13.SYNC")
+
+
 def run_rules(run: Run, prog: Program) -> None:
+    check_aligned(run, prog)
     drops = check_output(run, prog)
     check_steps(run, prog, drops)
     check_fetcher(run, prog)
@@ -690,6 +712,8 @@ def check(run: Run, prog: Program, tier: str) -> str:
              "missing otherwise, the base value otherwise; _is_value_valid agrees on 'missing'")
     run.rule("C13.OUT", "NaN/inf results map to Sample(ts, None), others through create_method; "
              "builders forward nones_are_zeros; every evaluated sample is sent")
+    run.rule("C13.SYNC", "the inputs combined belong to one timestamp and a failed first alignment is retried "
+             "(shared with C06.SYNC / C06.TS)")
     run.rule("C13.EMIT", "a complete round (every input delivered, well-formed evaluation) makes apply() return a sample")
     run.rule("C13.UNDEF", "a dividing step pushes NaN when its divisor is zero (never +-inf, which enclosing "
              "steps absorb into finite numbers)")
@@ -698,6 +722,7 @@ def check(run: Run, prog: Program, tier: str) -> str:
     run_rules(run, prog)
     run.floor("C13.UNDEF", 1)
     run.floor("C13.EMIT", 2)
+    run.floor("C13.SYNC", 8)
     run.floor("C13.READ", 3)
     run.floor("C13.NAN", 12)
     run.floor("C13.TOTAL", 20)
